@@ -21,10 +21,11 @@ VARIABLES l,
   ver,        \* [Files -> Int]  last complete version seen on disk
   ncommit,    \* [Files -> Int]  installs observed
   must,       \* SUBSET Files    tables that exist as far as committed transactions know
+  failed,     \* SUBSET Procs   processes whose failure has been judged
   bad,        \* "" or the name of the first violated observation of the current execution
   tno         \* number of the current execution in the trace file
 
-ovars == <<l, holdU, reading, ver, ncommit, must, bad, tno>>
+ovars == <<l, holdU, reading, ver, ncommit, must, failed, bad, tno>>
 
 ObsInit ==
   /\ l = 1
@@ -33,6 +34,7 @@ ObsInit ==
   /\ ver = [f \in Files |-> 0]
   /\ ncommit = [f \in Files |-> 0]
   /\ must = {}
+  /\ failed = {}
   /\ bad = ""
   /\ tno = 0
 
@@ -42,6 +44,7 @@ Reset(e) ==
   /\ ver' = [f \in Files |-> 0]
   /\ ncommit' = [f \in Files |-> 0]
   /\ must' = {f \in Files : e.exists[f]}
+  /\ failed' = {}
   /\ bad' = ""
   /\ tno' = tno + 1
 
@@ -65,9 +68,11 @@ Check(e) ==
   ELSE IF \E f \in must : e.dir[f].ver # ver[f] /\ ~(Installs(e, f) /\ e.dir[f].ver = ver[f] + 1)
        THEN "ObsNoLostUpdate:version-change"
   ELSE IF \E f \in must : Installs(e, f) /\ e.dir[f].ver # ver[f] + 1 THEN "ObsNoLostUpdate:install-not-increment"
-  \* documented outcomes: success, lock timeout; CREATE TABLE does not wait (already exists / cannot lock)
-  ELSE IF e.pt = "exited" /\ e.out \notin {"ok", "timeout", "exists"} /\ ~(e.out = "io" /\ e.op = "create")
-       THEN "ObsOutcome:" \o e.out
+  \* documented outcomes for a table that exists: success or lock timeout (CREATE TABLE does not wait);
+  \* an internal failure is never one
+  \* (judged at the event at which the failure first shows, against the tables existing then)
+  ELSE IF e.p \notin failed /\ e.out = "fatal" THEN "ObsOutcome:fatal"
+  ELSE IF e.p \notin failed /\ e.out \in {"notexist", "io"} /\ e.fo # "create" /\ e.ff \in must THEN "ObsOutcome:" \o e.out
   ELSE ""
 
 Apply(e) ==
@@ -82,6 +87,7 @@ Apply(e) ==
   /\ ver' = [f \in Files |-> IF f \in must /\ e.dir[f].exists /\ e.dir[f].ver >= 0 THEN e.dir[f].ver ELSE ver[f]]
   /\ ncommit' = [f \in Files |-> IF f \in must /\ Installs(e, f) THEN ncommit[f] + 1 ELSE ncommit[f]]
   /\ must' = must \cup {f \in Files : Installs(e, f) /\ e.dir[f].exists}
+  /\ failed' = IF e.out \notin {"run", "ok"} THEN failed \cup {e.p} ELSE failed
   /\ bad' = IF bad # "" THEN bad ELSE Check(e)
   /\ UNCHANGED tno
 
@@ -101,7 +107,7 @@ ObsNext ==
        \/ /\ e.a = "end"
           /\ bad' = IF bad # "" THEN bad ELSE EndCheck(e)
           /\ PrintT(<<"OBS", tno, bad'>>)          \* the verdict of this execution, read by the harness
-          /\ UNCHANGED <<holdU, reading, ver, ncommit, must, tno>>
+          /\ UNCHANGED <<holdU, reading, ver, ncommit, must, failed, tno>>
 
 ObsSpec == ObsInit /\ [][ObsNext]_ovars
 
